@@ -329,6 +329,14 @@ fn drive_worker<E: Engine>(eng: &E, ctx: &Ctx, w: usize, cases: u64, stop: &Atom
         }
         let bytes = serde_json::to_vec(&case).unwrap_or_default();
         let hash = crate::tape::fnv(&bytes);
+        // debugging aid: VERIF_SAVE_LABEL=<substring> saves the first cases carrying such a label
+        if let Ok(l) = std::env::var("VERIF_SAVE_LABEL") {
+            static SAVED: std::sync::atomic::AtomicUsize = std::sync::atomic::AtomicUsize::new(0);
+            if out.labels.iter().any(|x| x.contains(&l)) && SAVED.fetch_add(1, Ordering::Relaxed) < 3 {
+                let body = json!({"engine": eng.name(), "property": property, "case": case});
+                let _ = std::fs::write(format!("/tmp/saved-{:016x}.json", hash), serde_json::to_vec_pretty(&body).unwrap());
+            }
+        }
         let v = WORKER_STATS.with(|s| {
             let mut s = s.borrow_mut();
             let s = s.as_mut().unwrap();
